@@ -443,6 +443,7 @@ END;
 `
 
 type caseSpec struct {
+	witness  string // fixed corpus case with its own expectation
 	fn       string // model fn name or "agg:<NAME>"
 	a1       *int
 	a2       value.Primary // LAG/LEAD default (nil = absent)
@@ -536,7 +537,7 @@ func run(seed int64, n int, dir string, _ []string) {
 	pr := hc.NewProc("")
 	defer pr.Close()
 	if _, err := pr.Exec(udfDecl); err != nil {
-		o.Law("analytic:udf_declare_error", err.Error())
+		lawCap(o, "analytic:udf_declare_error", err.Error())
 		return
 	}
 
@@ -563,8 +564,19 @@ func run(seed int64, n int, dir string, _ []string) {
 				rows = append(rows, []value.Primary{value.NewInteger(0), value.NewNull(), value.NewInteger(int64(i + 1)), value.NewNull(), value.NewString(s)})
 			}
 		}
+		if t == 1 {
+			// corpus: ORDER BY ties between an integer and the equal float (1 = 1.0 is TRUE, ORDER BY leaves
+			// them in input order) — RANK must not separate them
+			nrows, akind = 4, aLetters
+			rows = [][]value.Primary{
+				{value.NewInteger(0), value.NewNull(), value.NewInteger(1), value.NewNull(), value.NewString("a")},
+				{value.NewInteger(0), value.NewNull(), value.NewFloat(1.0), value.NewNull(), value.NewString("b")},
+				{value.NewInteger(0), value.NewNull(), value.NewInteger(1), value.NewNull(), value.NewString("c")},
+				{value.NewInteger(0), value.NewNull(), value.NewInteger(2), value.NewNull(), value.NewString("d")},
+			}
+		}
 		if err := pr.DeclareTable("t", colNames, rows); err != nil {
-			o.Law("analytic:declare_table_error", err.Error())
+			lawCap(o, "analytic:declare_table_error", err.Error())
 			continue
 		}
 		cpu := []int{1, 2, 3, 4, 8}[g.Intn(5)]
@@ -593,6 +605,10 @@ func run(seed int64, n int, dir string, _ []string) {
 				if c.fn == "count_star" {
 					c.items = nil
 				}
+			} else if t == 1 && ci == 0 {
+				c = caseSpec{witness: "rank_int_float_ties", fn: "rank", items: []orderItem{{col: cK1}}, w: window{form: "order"}}
+			} else if t == 1 {
+				break // the mixed integer / float sort column is outside the generator's domain
 			} else {
 				c = genCase(g, nrows, akind)
 			}
@@ -737,7 +753,7 @@ func runCase(g *hc.Gen, o *hc.Out, pr *hc.Proc, rows [][]value.Primary, c caseSp
 		}
 		ov, oerr := safeQuery(pr, "SELECT id FROM t ORDER BY "+strings.Join(s, ", "))
 		if oerr != nil || ov.RecordLen() != nrows {
-			o.Law("analytic:reference_order_error", replay(map[string]interface{}{"error": fmt.Sprint(oerr)}))
+			lawCap(o, "analytic:reference_order_error", replay(map[string]interface{}{"error": fmt.Sprint(oerr)}))
 			return
 		}
 		for i := range order {
@@ -831,35 +847,35 @@ func runCase(g *hc.Gen, o *hc.Out, pr *hc.Proc, rows [][]value.Primary, c caseSp
 	if err != nil {
 		switch {
 		case strings.Contains(err.Error(), "makeslice: cap out of range"):
-			o.Law("analytic:inverted_frame_fatal", replay(map[string]interface{}{"error": firstLine(err.Error()), "frame": c.w.tok(), "inverted_frame_expected": inverted}))
+			lawCap(o, "analytic:inverted_frame_fatal", replay(map[string]interface{}{"error": firstLine(err.Error()), "frame": c.w.tok(), "inverted_frame_expected": inverted}))
 			if isModelFn {
 				o.Case(op, "FATAL")
 			}
 			return
 		case c.fn == "count_star" && strings.Contains(err.Error(), "only available in select clause"):
-			o.Law("analytic:count_star_over_rejected", replay(map[string]interface{}{"error": err.Error()}))
+			lawCap(o, "analytic:count_star_over_rejected", replay(map[string]interface{}{"error": err.Error()}))
 			return
 		case expectErr && hc.ErrCode(err) > 0:
 			// falls through to the model comparison with answer E
 		default:
-			o.Law(c.lawName("error"), replay(map[string]interface{}{"error": firstLine(err.Error())}))
+			lawCap(o, c.lawName("error"), replay(map[string]interface{}{"error": firstLine(err.Error())}))
 			return
 		}
 	} else if expectErr {
-		o.Law(c.lawName("invalid_argument_accepted"), replay(nil))
+		lawCap(o, c.lawName("invalid_argument_accepted"), replay(nil))
 	}
 
 	// ----- the implementation's output, per id -----
 	got := make([]*outRow, nrows)
 	if err == nil {
 		if v.RecordLen() != nrows {
-			o.Law("analytic:row_count_changed", replay(map[string]interface{}{"rows": nrows, "out": v.RecordLen()}))
+			lawCap(o, "analytic:row_count_changed", replay(map[string]interface{}{"rows": nrows, "out": v.RecordLen()}))
 			return
 		}
 		for i := 0; i < v.RecordLen(); i++ {
 			id := intCell(hc.ViewCell(v, i, 0))
 			if id < 0 || id >= nrows || got[id] != nil {
-				o.Law("analytic:row_count_changed", replay(map[string]interface{}{"duplicate_or_unknown_id": id}))
+				lawCap(o, "analytic:row_count_changed", replay(map[string]interface{}{"duplicate_or_unknown_id": id}))
 				return
 			}
 			or := &outRow{r: hc.ViewCell(v, i, 1+nCols)}
@@ -871,7 +887,7 @@ func runCase(g *hc.Gen, o *hc.Out, pr *hc.Proc, rows [][]value.Primary, c caseSp
 		for id, or := range got {
 			for j := 0; j < nCols; j++ {
 				if hc.EncVal(or.cells[j]) != hc.EncVal(rows[id][j]) {
-					o.Law("analytic:other_columns_changed", replay(map[string]interface{}{"id": id, "column": colNames[j], "was": hc.EncVal(rows[id][j]), "is": hc.EncVal(or.cells[j])}))
+					lawCap(o, "analytic:other_columns_changed", replay(map[string]interface{}{"id": id, "column": colNames[j], "was": hc.EncVal(rows[id][j]), "is": hc.EncVal(or.cells[j])}))
 					return
 				}
 			}
@@ -891,7 +907,7 @@ func runCase(g *hc.Gen, o *hc.Out, pr *hc.Proc, rows [][]value.Primary, c caseSp
 					if c.udf2 {
 						parts := strings.SplitN(s, "#", 2)
 						if len(parts) != 2 || parts[0] != strconv.Itoa(id) {
-							o.Law("analytic:udf_argument:other", replay(map[string]interface{}{"id": id, "got": s}))
+							lawCap(o, "analytic:udf_argument:other", replay(map[string]interface{}{"id": id, "got": s}))
 							bad = true
 						} else {
 							s = parts[1]
@@ -919,6 +935,19 @@ func runCase(g *hc.Gen, o *hc.Out, pr *hc.Proc, rows [][]value.Primary, c caseSp
 		o.Case(op, impl)
 	}
 	if err != nil {
+		return
+	}
+
+	if c.witness == "rank_int_float_ties" {
+		// rows 0, 1, 2 tie under ORDER BY k1 (1, 1.0, 1): rank 1 each; row 3 (k1 = 2): rank 4
+		want := []int64{1, 1, 1, 4}
+		for id, w := range want {
+			if iv, ok := got[id].r.(*value.Integer); !ok || iv.Raw() != w {
+				lawCap(o, "analytic:rank_int_float_ties", replay(map[string]interface{}{"id": id, "got": hc.EncVal(got[id].r), "want": w,
+					"note": "1 = 1.0 is TRUE and ORDER BY treats them as ties, but SortValue.EquivalentTo(Integer, Float) is false"}))
+				break
+			}
+		}
 		return
 	}
 
@@ -982,7 +1011,7 @@ func runCase(g *hc.Gen, o *hc.Out, pr *hc.Proc, rows [][]value.Primary, c caseSp
 		for k, v := range extra {
 			m[k] = v
 		}
-		o.Law(name, replay(m))
+		lawCap(o, name, replay(m))
 	}
 	var null value.Primary = value.NewNull()
 	sqlBudget := 10
@@ -1139,7 +1168,7 @@ func runCase(g *hc.Gen, o *hc.Out, pr *hc.Proc, rows [][]value.Primary, c caseSp
 				name := strings.TrimPrefix(c.fn, "agg:")
 				rv, rerr := safeQuery(pr, "SELECT "+name+"("+d+"x) FROM t WHERE "+idList(ids))
 				if rerr != nil || rv.RecordLen() != 1 {
-					o.Law("analytic:reference_aggregate_error", replay(map[string]interface{}{"error": fmt.Sprint(rerr)}))
+					lawCap(o, "analytic:reference_aggregate_error", replay(map[string]interface{}{"error": fmt.Sprint(rerr)}))
 					reported++
 					continue
 				}
@@ -1156,6 +1185,21 @@ func runCase(g *hc.Gen, o *hc.Out, pr *hc.Proc, rows [][]value.Primary, c caseSp
 			}
 		}
 	}
+}
+
+// at most lawCapN records per law name and run: a frequent (known) finding must not push a different
+// failure out of the part of laws.txt the orchestrator reads
+const lawCapN = 6
+
+var lawSeen = map[string]int{}
+
+func lawCap(o *hc.Out, name string, replay interface{}) {
+	lawSeen[name]++
+	if lawSeen[name] > lawCapN {
+		o.Count("law_repeat_not_recorded:" + name)
+		return
+	}
+	o.Law(name, replay)
 }
 
 func firstLine(s string) string {
